@@ -201,10 +201,10 @@ template <class T> static void plane_matrix ()
     const I3 PP[] = {{0, 0, 0}, {1, -2, 2}, {-1, 0, 2}};
     const I3 TR[] = {{0, 0, 0}, {1, -2, 3}};
     const double SC[][3] = {{1, 1, 1}, {2, 2, 2}, {0.5, 0.5, 0.5}, {1, 2, 4}, {2, 0.5, 1}, {-1, 1, 1}, {1, -2, 1}, {-1, -1, -1}};
-    std::atomic<ll> cases (0), refl (0), aniso (0), axisn (0), sidechk (0);
+    std::atomic<ll> cases (0), refl (0), aniso (0), axisn (0), sidechk (0), proj (0);
     std::mutex mm; double worst = 0;
     bool ok = parallel_chunks (D.size () * 3, 2, [&] (uint64_t lo, uint64_t hi, unsigned) {
-        ll k_c = 0, k_r = 0, k_a = 0, k_ax = 0, k_s = 0; double lw = 0;
+        ll k_c = 0, k_r = 0, k_a = 0, k_ax = 0, k_s = 0, k_pj = 0; double lw = 0;
         for (uint64_t i = lo; i < hi; ++i)
         {
             I3 pp = PP[i / D.size ()], nn = D[i % D.size ()];
@@ -217,10 +217,17 @@ template <class T> static void plane_matrix ()
             for (auto& rm : rots)
                 for (const I3& tr : TR)
                     for (auto& sc : SC)
+                    for (int pj = 0; pj < 3; ++pj)
                     {
+                        // pj > 0: a PROJECTIVE matrix — last column (p, 1) with |p_i| <= 1/64, so that the homogeneous
+                        // coordinate w = x.p + 1 stays in [1/2, 3/2] on every point used (|x_i| <= 10). The image of
+                        // the plane is still a plane and must contain the (divided) images of its points.
+                        static const double PJ[3][3] = {{0, 0, 0}, {1.0 / 64, 0, -1.0 / 64}, {0, -1.0 / 128, 1.0 / 64}};
+                        const double* pc = PJ[pj];
                         Matrix44<T> M;
                         for (int r = 0; r < 3; ++r) for (int c = 0; c < 3; ++c) M[r][c] = (T) (sc[r] * rm[r * 3 + c]);
                         M[3][0] = (T) tr.x; M[3][1] = (T) tr.y; M[3][2] = (T) tr.z;
+                        for (int r = 0; r < 3; ++r) M[r][3] = (T) pc[r];
                         bool reflection = sc[0] * sc[1] * sc[2] < 0;
                         LD smax = std::max (std::fabs (sc[0]), std::max (std::fabs (sc[1]), std::fabs (sc[2]))), smin = std::min (std::fabs (sc[0]), std::min (std::fabs (sc[1]), std::fabs (sc[2])));
                         Plane3<T> q = pl * M;
@@ -229,15 +236,17 @@ template <class T> static void plane_matrix ()
                         {
                             LD x[3] = {(LD) pts[a].x * sc[0], (LD) pts[a].y * sc[1], (LD) pts[a].z * sc[2]}, y[3];
                             for (int c = 0; c < 3; ++c) y[c] = x[0] * rm[c] + x[1] * rm[3 + c] + x[2] * rm[6 + c];
-                            im[a] = {y[0] + tr.x, y[1] + tr.y, y[2] + tr.z};
+                            LD w = 1 + (LD) pts[a].x * pc[0] + (LD) pts[a].y * pc[1] + (LD) pts[a].z * pc[2];
+                            im[a] = {(y[0] + tr.x) / w, (y[1] + tr.y) / w, (y[2] + tr.z) / w};
                             if (a < 3) S = std::max (S, l1 (im[a]));
                         }
                         S += 1;
                         LD tol = 64 * e * (smax / smin) * (smax / smin) * S * S;
+                        if (pj) tol *= 16; // w in [1/2,3/2]: one more rounding per coordinate and a local distortion of at most (wmax/wmin)^2 = 9
                         auto in = [&] () {
                             std::string m;
                             for (int r = 0; r < 4; ++r) for (int c = 0; c < 3; ++c) m += fmt ((double) M[r][c]).substr (0, fmt ((double) M[r][c]).find ('[')) + (c == 2 ? (r == 3 ? "" : " / ") : " ");
-                            return std::string ("T=") + tname<T> () + " Plane3(point=" + s (pp) + ", normal=" + s (nn) + ") * M(rows 0..3, cols 0..2 = " + m + ")";
+                            return std::string ("T=") + tname<T> () + " Plane3(point=" + s (pp) + ", normal=" + s (nn) + ") * M(rows 0..3, cols 0..2 = " + m + "; last column = (" + std::to_string (pc[0]) + "," + std::to_string (pc[1]) + "," + std::to_string (pc[2]) + ",1))";
                         };
                         L3 qn = toL (q.normal);
                         if (!(fabsl (dot (qn, qn) - 1) <= 8 * e)) R ().fail ("Plane3*Matrix44.unit-normal", in (), "1", s (dot (qn, qn)));
@@ -247,7 +256,8 @@ template <class T> static void plane_matrix ()
                             lw = std::max (lw, (double) (fabsl (dd) / tol));
                             if (!(fabsl (dd) <= tol)) R ().fail (reflection ? "Plane3*Matrix44.contains-transformed-points.reflection" : "Plane3*Matrix44.contains-transformed-points", in () + " point " + s (pts[a]), "0", s (dd));
                         }
-                        if (!reflection)
+                        if (pj) ++k_pj;
+                        if (!reflection && !pj)
                         {
                             LD nl = sqrtl ((LD) (nn.x * nn.x) / (sc[0] * sc[0]) + (LD) (nn.y * nn.y) / (sc[1] * sc[1]) + (LD) (nn.z * nn.z) / (sc[2] * sc[2]));
                             LD td = (LD) dot (nn, nn) / nl; // true distance of (pp+nn).M from the image plane
@@ -261,12 +271,13 @@ template <class T> static void plane_matrix ()
                         ++k_c; if (reflection) ++k_r; if (smax != smin) ++k_a; if (l1 (nn) == 1) ++k_ax;
                     }
         }
-        cases += k_c; refl += k_r; aniso += k_a; axisn += k_ax; sidechk += k_s;
+        cases += k_c; refl += k_r; aniso += k_a; axisn += k_ax; sidechk += k_s; proj += k_pj;
         std::lock_guard<std::mutex> g (mm); worst = std::max (worst, lw);
     });
     R ().add ("states", cases); R ().add ("evaluations", cases); R ().add ("transitions", cases.load () * 5);
     R ().cls ("plane-matrix.reflection", refl); R ().cls ("plane-matrix.non-uniform-scale", aniso);
     R ().cls ("plane-matrix.axis-aligned-normal", axisn); R ().cls ("plane-matrix.side-checked", sidechk);
+    R ().cls ("plane-matrix.projective-last-column", proj);
     R ().note_max (std::string ("worst plane*M containment residual / tolerance, ") + tname<T> (), worst);
     if (ok) R ().stage_done ("510 planes x 24 rotations x 2 translations x 8 scales (3 of them reflections)");
     else R ().stage_partial ("deadline");
